@@ -42,6 +42,7 @@ var (
 	acted    int64
 	obsMu    sync.RWMutex
 	obs      = map[string]func(kv []any){}
+	pts      atomic.Value // map[string]func()
 	traceMu  sync.Mutex
 	traceOn  bool
 	traceH   = fnv.New64a()
@@ -94,6 +95,13 @@ func OnObserve(name string, fn func(kv []any)) {
 	obsMu.Unlock()
 }
 
+// OnPoint registers callbacks run at yield points (before any perturbation); call it once, before
+// engine instances exist.
+func OnPoint(m map[string]func()) {
+	Install()
+	pts.Store(m)
+}
+
 // Trace starts (true) or stops (false) hashing the sequence of point names; stopping returns the
 // hash and the number of points seen.
 func Trace(on bool) (uint64, int) {
@@ -125,6 +133,11 @@ func handle(kind, name string, kv []any) {
 			fn(kv)
 		}
 		return
+	}
+	if m, _ := pts.Load().(map[string]func()); m != nil {
+		if fn := m[name]; fn != nil {
+			fn()
+		}
 	}
 	c, ok := hits.Load(name)
 	if !ok {
